@@ -497,13 +497,13 @@ Proof.
 Qed.
 
 (* erase(img, pos) removes the placement draw(img, pos) created, and no placement of the image at
-   any other position (coordinates below 65536, the pair (0,0) / (65535,65535) excepted) *)
+   any other position (coordinates below 65536, the pair (65534,65535) / (65535,65535) excepted) *)
 Theorem erase_exact st s img hash pos : Inv st s -> image_wf img -> in_dom pos ->
   let s' := term_step st s (OpErase img hash (Some pos)) in
   ~ In (image_id hash, placement_id pos) (places_of s') /\
   (forall x, In x (places_of s) -> x <> (image_id hash, placement_id pos) -> In x (places_of s')) /\
   (forall pos', in_dom pos' -> pos' <> pos ->
-     ~ (pos = (0, 0) /\ pos' = (65535, 65535)) -> ~ (pos = (65535, 65535) /\ pos' = (0, 0)) ->
+     ~ (pos = (65534, 65535) /\ pos' = (65535, 65535)) -> ~ (pos = (65535, 65535) /\ pos' = (65534, 65535)) ->
      In (image_id hash, placement_id pos') (places_of s) ->
      In (image_id hash, placement_id pos') (places_of s')).
 Proof.
